@@ -459,7 +459,10 @@ def modules_as_programs():
 
 def check_c05(tier, t0):
     progs = names_family() + modules_as_programs() + pick(all_progs(["branches", "loops", "functions"]), tier, 14)
-    bases = [cw.REF, cw.opts(use_push_pop_functions=True)]
+    if not any(n == "br_long_remarks" for n, _, _ in progs):
+        progs += [p for p in all_progs(["branches"]) if p[0] == "br_long_remarks"]
+    # comment options must not move any target either (source remarks, version note)
+    bases = [cw.REF, cw.opts(use_push_pop_functions=True), cw.opts(original_code_as_comment=True, append_version=True)]
     if tier == "thorough":
         bases += [cw.opts(inline_functions=True), cw.opts(tail_call_optimization=True), cw.opts(compact=True)]
     vecs = []
